@@ -26,11 +26,17 @@ Keys(x) == << Key("idx", x.app, x.code, x.req, ""),
 
 M(app, code, req, short, ocode, oshort, oapp) ==
   [app |-> app, code |-> code, req |-> req, short |-> short, ocode |-> ocode, oshort |-> oshort, oapp |-> oapp]
+\* a command the dictionary defines neither for the message's application nor for base has no
+\* short name (short = ""): only the catch-all can serve it.  Its own index keys are not
+\* registered (such a message cannot be read from a connection; the index clause is not judged).
+Known(x) == x.short # ""
 \* requests and answers; base and application-specific commands; an application id whose
 \* command resolves through the base dictionary (4/257, 16777251/280)
 DefaultMsgs == { M(0, 257, TRUE, "CE", 280, "DW", 4), M(0, 257, FALSE, "CE", 280, "DW", 4),
                  M(4, 272, TRUE, "CC", 257, "CE", 0), M(4, 272, FALSE, "CC", 257, "CE", 16777251),
-                 M(4, 257, TRUE, "CE", 272, "CC", 0), M(16777251, 280, FALSE, "DW", 316, "UL", 0) }
+                 M(4, 257, TRUE, "CE", 272, "CC", 0), M(16777251, 280, FALSE, "DW", 316, "UL", 0),
+                 \* Credit-Control (defined for application 4 only) under S6a / under Gx, whose AVP lookups have parent 4
+                 M(16777251, 272, TRUE, "", 316, "CC", 4), M(16777238, 265, FALSE, "", 272, "AA", 1) }
 
 Init == m \in Msgs /\ regs = <<>> /\ nextKey = 1 /\ rereg = 0
 \* sp = spelling used to register: the catch-all can be registered as Handle("ALL", h) or as
@@ -38,7 +44,7 @@ Init == m \in Msgs /\ regs = <<>> /\ nextKey = 1 /\ rereg = 0
 Reg(k, hid, sp) == [t |-> k.t, app |-> k.app, code |-> k.code, req |-> k.req, name |-> k.name, hid |-> hid, sp |-> sp]
 Spellings(k) == IF k.t = "all" THEN {"handle", "handleidx"} ELSE {"handle"}
 \* first pass: decide for each key of the neighbourhood, in order, whether to register it
-Register == /\ nextKey <= Len(Keys(m))
+Register == /\ nextKey <= Len(Keys(m)) /\ (Known(m) \/ nextKey \notin {1, 2, 5, 6})
             /\ \E sp \in Spellings(Keys(m)[nextKey]) : regs' = Append(regs, Reg(Keys(m)[nextKey], nextKey, sp))
             /\ nextKey' = nextKey + 1
             /\ UNCHANGED <<m, rereg>>
